@@ -667,10 +667,14 @@ class Translator:
         if pure_k is None:
             body = self.block(cx, case.body, env2)
             if known:
+                try:
+                    known["when"] = known["when"].format(**{n: v.coq for n, v in env2.items()})
+                except (KeyError, IndexError) as e:
+                    err(p, case, f"known-finding condition refers to a name the case does not bind: {e}")
                 if known["when"] == "true":
-                    body = f"(taint {known['id']} ({body}))"
+                    body = f"(taint {known['id']}%nat ({body}))"
                 else:
-                    body = f"(if {known['when']} then taint {known['id']} ({body}) else {body})"
+                    body = f"(if {known['when']} then taint {known['id']}%nat ({body}) else {body})"
         else:
             if known:
                 err(p, case, "known-finding site inside a pure function is not supported")
